@@ -56,6 +56,7 @@ def gen_params(rng):
         "error_rate": rng.choice([0.0, 0.0, 0.01, 0.03]),
         "het_prob": rng.choice([0.5, 0.8]),
         "with_pl": ped != [] and rng.random() < 0.3,
+        "qual_mode": rng.choice(["const", "random", "zeros"]),
     }
     if rng.random() < 0.35:
         # dense variants, short mates far apart, few fragments: mutually interleaved and nested components
